@@ -368,6 +368,56 @@ def generated_kernels(run, ints):
         kind = 1 if v is True else (2 if isinstance(v, float) and n == 4 else (3 if isinstance(v, float) else 0))
         tab.append([tid, [0, n, int(kind == 0 and v == -1), kind, n] if len(p.n) == 1 else [9]])
     run.compare("gen_ser_consts", [[]], [[S.MAX_BYTES_LENGTH, S.MAX_ARRAY_LENGTH, tab]], M.call_many("gen_ser_consts", [[]]))
+    # container writers up to the element loop: a container that claims n elements and yields none
+    class FList(list):
+        def __init__(self, n):
+            list.__init__(self); self.n = n
+
+        def __len__(self):
+            return self.n
+
+    class FSet(set):
+        def __init__(self, n):
+            set.__init__(self); self.n = n
+
+        def __len__(self):
+            return self.n
+
+    class FDict(dict):
+        def __init__(self, n):
+            dict.__init__(self); self.n = n
+
+        def __len__(self):
+            return self.n
+    ns = [0, 1, 2, 127, 128, 255, 256, 32767, 32768, 2 ** 14 - 1, 2 ** 14, 2 ** 14 + 1, 2 ** 20, 2 ** 31, 2 ** 62] + [r.randrange(0, 20000) for _ in range(30)]
+    hcases = [[k, n] for k in (0, 1, 2) for n in ns]
+    hi = [wr([S.serialize_seq, S.serialize_set, S.serialize_map][k], [FList, FSet, FDict][k](n)) for k, n in hcases]
+    run.compare("gen_ser_headers", hcases, hi, M.call_many("gen_ser_headers", hcases))
+    # decoder length guards: a stream that holds an encoded length (int / bool / None / str) and nothing else
+    decs = [S.deserialize_string, S.deserialize_bytes, S.deserialize_map, S.deserialize_seq, S.deserialize_set]
+    lens = [0, 1, -1, -5, 2 ** 14 - 1, 2 ** 14, 2 ** 14 + 1, 2 ** 20 - 1, 2 ** 20, 2 ** 20 + 1, 2 ** 40, -2 ** 40, True, False, None, "7"]
+    lens += [r.randrange(-10, 2 ** 21) for _ in range(20)]
+    gcases, gi, gm = [], [], []
+    for k in range(5):
+        for L in lens:
+            s = io.BytesIO()
+            S.serialize_value(s, L)
+            s.seek(0)
+            try:
+                decs[k](s)
+                got = "passed"
+            except TypeError:
+                got = [1, lib.ERR["TypeError"]]
+            except ValueError as ex:
+                got = [1, lib.ERR["ValueError"]] if "too large" in str(ex) or "length" in str(ex) else "passed"
+            except Exception:       # noqa: a failure AFTER the guard (no elements in the stream)
+                got = "passed"
+            is_int = isinstance(L, int)
+            gcases.append([k, L if isinstance(L, (int, bool)) else repr(L)])
+            gi.append(got)
+            gm.append([k, 1 if is_int else 0, int(L) if is_int else 0])
+    gmod = ["passed" if m[0] == 0 else m for m in M.call_many("gen_ser_guard", gm)]
+    run.compare("gen_ser_guard", gcases, gi, gmod)
     uc = []
     for code, ch in enumerate("BbHhLlQq?"):
         sz = struct.calcsize(">" + ch)
